@@ -9,6 +9,11 @@ CHECKS = {
     text="TLC model-checks the closed-form corollaries of the TLA+ reference semantics (FamiliesMC) and judges every formula the real generators produce on the bounded scope: for all 2^n assignments Sat(a,F) <=> Object(params, valuation(a)); larger seeded instances on proposed candidate assignments. Bounded-exhaustive, not a proof for all sizes.",
     note="Trusted: label->index-tuple projection (harness/project.py), TLC, the transcription of the documentation into Families.tla. Bounds are recorded in the evidence file.",
     ref="DESIGN.md §4 C01"),
+ "C16": dict(
+    technique="implementation-shaped TLA+ state machine (Graphs.tla) model-checked exhaustively by TLC; TLC-generated behaviours replayed into the real classes with every view compared after every call",
+    text="TLC explores every reachable state of the implementation-shaped graph machine (vertex counts 0..3/4, all arguments incl. invalid) with invariant ViewsAgree and the no-side-effect action property; every behaviour of depth 2 (3 thorough) and thousands of deeper random walks are replayed into Graph/DirectedGraph/BipartiteGraph, comparing all views and networkx conversions with TLC's expected abstract views after each step.",
+    note="Trusted: the view accessors used by the replay harness, TLC. Bounded vertex counts and history depth.",
+    ref="DESIGN.md §4 C16"),
 }
 
 ALL = ["C%02d" % i for i in range(1, 21)]
